@@ -351,7 +351,6 @@ pub fn replay(doc: &Value) -> i32 {
     match judge_blob(writer, &blob, &queries, &mut st) {
         Some((class, msg, _)) => {
             println!("reproduced: class={} :: {}", class, msg);
-            println!("VIOLATION property=C10 replay=(replayed)");
             1
         }
         None => {
